@@ -131,6 +131,75 @@ def check_lexer_new(ctx, fn_path, rule="lexer-new"):
                   ctx.facts.bodies()[fn_path]["loc"], detail={"fn": fn_path, "source_len": "param.len()"})
 
 
+def check_eof_in_comment(ctx, rule="eof-in-comment"):
+    """F20: with a positive comment depth at the end of input the parser's lexer must hand the grammar a token."""
+    from .. import mirlib as M
+    ctx.rule(rule, "<Lexer as Iterator>::next returns None only where `self.comment_depth > 0` is false: every write of a None result "
+                   "is dominated by the false edge of a `comment_depth > 0` test taken after the underlying lexer was exhausted (the end "
+                   "of input inside a block comment is reported, not accepted)")
+    b = ctx.need_mir(rule, LEXER_NEXT)
+    loc = ctx.facts.bodies()[LEXER_NEXT]["loc"]
+    # blocks that test comment_depth > 0: `_t = Gt(<copy of self.comment_depth>, 0)`; switch _t
+    tests = []
+    for bb in range(b.n):
+        t = b.term(bb)
+        if t["k"] != "switch":
+            continue
+        dp = M.op_place(t["discr"])
+        if dp is None:
+            continue
+        for st in b.stmts(bb):
+            rv = st["rv"]
+            if st["d"] == M.place_local(dp) and rv["k"] == "bin" and rv.get("op") == "Gt" and M.op_const(rv["ops"][1]) is not None \
+                    and M.op_const(rv["ops"][1]).get("bits") == "0":
+                src = M.op_place(rv["ops"][0])
+                depth = False
+                if src is not None:
+                    for d in b.defs_of(M.place_local(src)):
+                        if d[0] == "stmt" and d[3]["rv"]["k"] == "use":
+                            pl = M.op_place(d[3]["rv"]["ops"][0])
+                            if pl is not None and any("comment_depth" in str(x) for x in M.place_proj(pl)):
+                                depth = True
+                    if any("comment_depth" in str(x) for x in M.place_proj(src)):
+                        depth = True
+                if depth:
+                    tg = {int(v): x for v, x in t["targets"]}
+                    if 0 in tg:
+                        tests.append((bb, tg[0]))     # false edge
+    nones = [bb for bb, k, s in b.assignments() if s["d"] == 0 and not (s["rv"]["k"] == "agg" and s["rv"].get("variant") == "Some")]
+    ok = bool(nones) and all(any(b.dominates(f, n) for _, f in tests) for n in nones)
+    ctx.check(ok, rule, "Lexer:none-needs-depth-0", "the parser's lexer can end the token stream while inside a block comment: a comment the "
+              "author closed in a way the lexer does not see (`/- a -- b -/`, `/- note-/`) silently swallows the rest of the file", loc,
+              detail={"none_sites": len(nones), "depth_tests": len(tests)})
+
+
+def check_skip_rules(ctx, rule="skip-rules"):
+    """The token definition may skip only white space; anything else it skips never reaches the grammar (nor fmt)."""
+    import os
+    import re
+    from .. import facts as F
+    ctx.rule(rule, "the logos definition of Tok (attributes read from lexer.rs) skips white space only: every `skip` pattern / "
+                   "`logos::skip` callback matches nothing but blanks, tabs, newlines, form feeds")
+    path = os.path.join(F.REPO, "lang/surface/src/textual/lexer.rs")
+    with open(path) as fh:
+        text = fh.read()
+    m = re.search(r"#\[derive\([^\]]*\bLogos\b[^\]]*\)\](.*?)\n\}", text, re.S)
+    if not m:
+        ctx.anchor_lost(rule, "derive(Logos) enum not found in lexer.rs")
+        return
+    decl = m.group(1)
+    skips = re.findall(r"#\[logos\(\s*skip\s*\(?\s*r#*\"(.*?)\"#*", decl) + re.findall(r"#\[logos\(\s*skip\s*\(?\s*\"(.*?)\"", decl)
+    cb = re.findall(r"#\[(?:regex|token)\(\s*r?#*\"(.*?)\"#*\s*,[^\]]*\bskip\b", decl)
+    n = 0
+    for pat in skips + cb:
+        n += 1
+        ws_only = re.fullmatch(r"(\[( |\\t|\\n|\\f|\\r)+\][+*]?|\\s[+*]?| +)", pat) is not None
+        ctx.check(ws_only, rule, "skip:%s" % pat, "the token definition skips `%s`: text matching it is dropped before the parser, the "
+                  "formatter and every tool see it" % pat, ["lang/surface/src/textual/lexer.rs", text[:text.find(pat)].count("\n") + 1],
+                  detail={"pattern": pat, "white_space_only": ws_only})
+    ctx.floor(rule, "skip patterns", n, 1)
+
+
 def run(ctx):
     ctx.rule("stream-end", "the token stream ends (next() = None) only on the None edge of the underlying "
                            "lexer's next(): MIR reachability from each inner.next() call with its None edge cut")
@@ -140,6 +209,8 @@ def run(ctx):
     check_lexer_new(ctx, LEXER_NEW)
     check_lexer_new(ctx, TOKENS_NEW)
     check_front_doors(ctx)
+    check_eof_in_comment(ctx)
+    check_skip_rules(ctx)
     ctx.assume("LALRPOP-generated parsers accept only when the start symbol is followed by end of the token stream")
-    ctx.assume("logos yields every byte of the input either as a token or as an Err item (skip rule covers whitespace only)")
+    ctx.assume("logos yields every byte of the input that no skip pattern matches either as a token or as an Err item")
     return {}
